@@ -1,8 +1,9 @@
 (** Source-level corollary of the capstone, C11: the external commands the emitted bash script can
     run.  Composition of [compile_bash] with Part A / B / C of Proofs/CapstoneCommands.v. *)
 From CG Require Import Base.Prelude Model.Ast Model.Parser Model.Check Model.Dfa Model.Driver Model.Tables
-  Model.EmitBash Model.Compiler Spec.Choice Spec.ScriptRead.
-From CG Require Import Proofs.TablesSound Proofs.BashCodec Proofs.BashScript Proofs.CapstoneMeaning Proofs.CapstoneCommands.
+  Model.EmitBash Model.Compiler Spec.Choice Spec.ScriptRead Spec.Warnings.
+From CG Require Import Proofs.TablesSound Proofs.BashCodec Proofs.BashScript Proofs.CapstoneMeaning Proofs.CapstoneCommands
+  Proofs.CapstoneShape Proofs.CapstoneConverse Proofs.CapstoneReach.
 From CG Require Props.C04.
 
 Theorem compile_bash_commands o builtins text s :
@@ -12,6 +13,7 @@ Theorem compile_bash_commands o builtins text s :
     /\ compile (pick_table (o_pops o)) (o_fuel o) builtins text Bash = Ok (v, c)
     /\ all_tables Bash c (o_main_lits o) (o_sub_lits o) = Ok (nd, a)
     /\ (forall cm, In cm (a_commands a) -> cmd_source builtins g Bash cm)
+    /\ (forall x cm, In x (used_names g Bash) -> Choice.spec builtins g Bash x = ChCommand cm -> In cm (a_commands a))
     /\ (name_ok (v_command v) -> no_nl (o_sig o) = true ->
         Forall (fun cm => body_ok (cmd_body cm)) (a_commands a) ->
         exists sts,
@@ -20,10 +22,14 @@ Theorem compile_bash_commands o builtins text s :
           /\ forall b, In (SBody b) sts <-> exists cm, In cm (a_commands a) /\ b = cmd_body cm).
 Proof.
   intro H. destruct (compile_bash_inv o builtins text s H) as [g [v [c [nd [a [Hg [Hv [Hcv [Hc [Halts [Ho [Ha [Vg Hs]]]]]]]]]]]]].
-  exists g, v, c, nd, a. split; [exact Hg|]. split; [exact Hc|]. split; [exact Ha|]. split.
+  exists g, v, c, nd, a. split; [exact Hg|]. split; [exact Hc|]. split; [exact Ha|]. split; [|split].
   - intros cm Hcm. destruct (all_tables_inv _ _ _ _ _ _ Ha) as [rt F].
     apply (from_grammar_cmds builtins g Bash v Hv).
     exact (compiled_commands _ _ v c _ Halts Hcv (af_cmds _ _ _ _ _ _ _ F) cm Hcm).
+  - intros x cm Hu Hx. destruct (all_tables_inv _ _ _ _ _ _ Ha) as [rt F].
+    apply (compiled_commands_complete _ _ v c _ Halts (parsed_sub_tree builtins text g Bash v Hg eq_refl Hv) Hcv
+             (af_cmds _ _ _ _ _ _ _ F)).
+    exact (reachable_commands builtins g Bash v Hv x cm Hu Hx).
   - intros Hn Hsig Hb.
     destruct (Props.C04.C04_embed_bash _ _ _ _ _ _ _ Hn Hsig Hb Hs) as [sts [S1 S2]].
     exists sts. split; [exact S1|]. split; [exact S2|]. apply (script_bodies _ _ _ _ _ _ S1).
